@@ -170,6 +170,13 @@ func (i *ignore) TeardownBlockStatement(meta *ast.Meta) {
 			unignoreRules(&i.ignoreRange, rules)
 		}
 	}
+
+	// The parser holds comments placed before the closing brace as infix comments of the block
+	for _, c := range meta.Infix {
+		if ignoreType, rules := parseIgnoreComment(c.String()); ignoreType == falcoIgnoreEnd {
+			unignoreRules(&i.ignoreRange, rules)
+		}
+	}
 }
 
 func (i *ignore) IsEnable(rule Rule) bool {
